@@ -10,6 +10,9 @@
     expression; TLC (QFTrace.tla, one process per shard) judges every line against Eval.
  3. hostile archives: TLC derives them from the specification's Archive form (QFHostile.tla), the asan harness feeds them to
     the factory; a sanitizer report / crash is a VIOLATION.  Plus seeded random damage (qf fuzz).
+ 4. hostile expression strings: TLC spells them from the token alphabet of QFParse.tla (QFExprHostile.tla: every cast x every
+    literal shape x every name/index/default shape, token soup), the asan harness adds seeded soup and damaged valid expressions and
+    feeds all to CreateQueryFilterFromExpression (qf hx, resumable: every crashing string is reported, the run continues after it).
  Known finding F22 (zero-length assumed default of a RawDataQueryFilter is lost by SaveToArchive) is carried as a directed case.
 """
 import concurrent.futures as cf, json, os, threading, time
@@ -259,6 +262,42 @@ def run(v, tier, seed):
         if summ[0]["archives"] != meta[0]["cases"]: raise vlib.MachineryError("hostile: %d archives generated, %d processed" % (meta[0]["cases"], summ[0]["archives"]))
         return summ[0], r
 
+    def hostile_expr(nrandom):
+        """hostile expression strings: spelled by TLC from the specification's token alphabet + seeded soup; resumable after a crash"""
+        out = W("hx.ndjson"); rep = W("hx_rep.ndjson")
+        for pth in (out, rep, rep + ".at"):
+            if os.path.exists(pth): os.remove(pth)
+        with Slots(1):
+            r = vlib.tlc("QFExprHostile", "QFExprHostile.cfg", FAM, workers=1, timeout=1200, heap="4g", env=dict(JENV, OUT=out))
+        vlib.require_ok(r, "QFExprHostile generation")
+        meta = [p for p in r.printed if "cases" in p]
+        if not meta or meta[0]["cases"] < 5000 or not os.path.exists(out): raise vlib.MachineryError("QFExprHostile produced no strings")
+        start = 0; crashes = 0; acc = {"strings": 0, "from_spec": meta[0]["cases"], "parsed": 0, "refused": 0, "evaluations": 0, "crashes": 0}
+        while True:
+            rc, so, se = harness(["hx", out, nrandom, seed, start, rep], "hx", timeout=3000)
+            if rc == 0: break
+            at = {}
+            try: at = json.loads(open(rep + ".at").read())
+            except Exception: pass
+            if "at" not in at: raise vlib.MachineryError("qf hx failed rc=%s without a progress marker: %s" % (rc, se[-1500:]))
+            crashes += 1
+            with vlock:
+                vlib.harness_failed(v, rc, so, se[-3000:], "CreateQueryFilterFromExpression(%s) [string #%d of the hostile-expression stage; replay: build/asan/bin/qf hx %s %d %d %d <report>] %s" %
+                                    (json.dumps(at.get("x")), at["at"], out, nrandom, seed, at["at"], san_summary(se)), "hx")
+            if crashes >= 12:
+                vlib.log("NOTE property=C14 hostile-expression stage stopped after %d crashing strings" % crashes); break
+            start = at["at"] + 1
+        rows = vlib.read_ndjson(rep) if os.path.exists(rep) else []
+        for x in rows:
+            if x.get("summary"):
+                for k in ("parsed", "refused", "evaluations"): acc[k] += x[k]
+                acc["strings"] = x["strings"]
+                if x.get("message_changed"): viol("evaluating filters parsed from hostile expression strings changed a Message", x, tag="hx-changed")
+            elif "unstable" in x: viol("the filter parsed from %s and the filter restored from its archive decide differently" % json.dumps(x.get("x")), x, tag="hx-unstable")
+        acc["crashes"] = crashes
+        if crashes == 0 and acc["strings"] != meta[0]["cases"] + nrandom: raise vlib.MachineryError("hx: %d strings expected, %d processed" % (meta[0]["cases"] + nrandom, acc["strings"]))
+        return acc
+
     def fuzz(n):
         rep = W("fuzz_rep.ndjson")
         rc, so, se = harness(["fuzz", n, seed, rep], "fuzz")
@@ -284,6 +323,7 @@ def run(v, tier, seed):
         f_f22 = ex.submit(timed, "f22", f22)
         f_self = ex.submit(timed, "selftest", selftest)
         f_fuzz = ex.submit(timed, "fuzz", fuzz, 5000 if quick else 200000)
+        f_hx = ex.submit(timed, "hostile_expressions", hostile_expr, 20000 if quick else 1000000)
         f_cov = ex.submit(timed, "laws_coverage", laws_cov)
         f_reach = [ex.submit(timed, "reach_" + w + "_" + l, reach, w, l) for (w, l) in reach_list]
         if not quick: f_gen.result()
@@ -294,6 +334,7 @@ def run(v, tier, seed):
         r_laws = f_laws.result(); r_cov = f_cov.result()
         for f in f_reach: f.result()
         hs, r_h = f_host.result(); fz = f_fuzz.result()
+        hx = f_hx.result()
         f22_lines, f22_hits = f_f22.result()
         corrupted = f_self.result()
     corrupted = corrupted or 0
@@ -313,6 +354,8 @@ def run(v, tier, seed):
            "expressions_parsed": tot["expressions"], "rounds": tot["rounds"], "corrupted_lines_rejected": corrupted,
            "hostile_archives_from_spec": hs.get("archives", 0), "hostile_accepted": hs.get("accepted", 0), "hostile_rejected": hs.get("rejected", 0), "hostile_evaluations": hs.get("evaluations", 0),
            "fuzzed_archives": fz.get("archives", 0), "fuzzed_accepted": fz.get("accepted", 0), "fuzzed_evaluations": fz.get("evaluations", 0),
+           "hostile_expression_strings": hx["strings"], "hostile_expression_strings_from_spec": hx["from_spec"], "hostile_expressions_parsed": hx["parsed"], "hostile_expressions_refused": hx["refused"],
+           "hostile_expression_evaluations": hx["evaluations"], "hostile_expression_crashes": hx["crashes"],
            "f22_directed_lines": f22_lines, "f22_lines_deciding_differently_after_round_trip": f22_hits,
            "stage_wall_s": stage,
            "samples": samples[:3] or [{"kind": "none (violations were found before sampling)"}]}
@@ -320,5 +363,6 @@ def run(v, tier, seed):
                    "numbers are small: integers in -128..127 (bit operations are width-independent there), floats from a table of tokens (NaN, -0, +-inf, -1, 0, 0.5, 1, 2, 2.5); strings over {a, b, A, B, *, ?, [, ]}",
                    "zero-length raw items in Messages are not generated (Message::FindData does not find them: F12); a zero-length assumed default only in the directed case of F22",
                    "the two undocumented parser restrictions (a group holding only a group; unquoted words containing keywords) are kept out of the generated expressions",
+                   "point / rect literals and every other spelling outside the Beginner's Guide grammar have no documented meaning: for them only 'refused or evaluates safely, archives and restores to a filter that decides alike' is judged",
                    "hostile archives: accepted filters are evaluated on the menu, printed, checksummed, compared and re-archived under ASan/UBSan; no verdict oracle there"]
     return "model_checking", cov, assumptions
